@@ -46,6 +46,18 @@ def holders():
         ("field-list-element", lambda tg: [("assign", ("bin", "index", ("field", "fl", tg), ("int", 1)), ("int", 1000))]),
         ("compound", lambda tg: [("compound", "plus", ("field", "fz", tg), ("int", 10))]),
     ]))
+    # primitive holders: a Referenz to a Zahl / Kommazahl / Buchstabe aliases the caller's variable just as well (the same
+    # variable twice, a global the callee also names)
+    out.append(("Z", ("int", 5), ("int", 9), [
+        ("whole", lambda tg: [("assign", tg, ("int", 42))]),
+        ("compound", lambda tg: [("compound", "plus", tg, ("int", 10))]),
+    ]))
+    out.append(("K", ("float", gen.bits_of_float(1.5)), ("float", gen.bits_of_float(2.25)), [
+        ("whole", lambda tg: [("assign", tg, ("float", gen.bits_of_float(8.5)))]),
+    ]))
+    out.append(("C", ("char", 0x61), ("char", 0x20AC), [
+        ("whole", lambda tg: [("assign", tg, ("char", 0x7A))]),
+    ]))
     out.append(("V", ("cast", txt("var"), "V"), ("cast", ("int", 3), "V"), [
         ("whole", lambda tg: [("assign", tg, txt("anders"))]),
         ("whole-int", lambda tg: [("assign", tg, ("int", 12))]),
@@ -84,6 +96,18 @@ def programs():
             f = dict(name="fn_zwei", params=[("p", ty, True), ("q", ty, True)], ret="N",
                      body=mut(("var", "p")) + dump("q", ty) + mut(("var", "q")) + dump("p", ty))
             yield lab + ":ref-twice", prog([da], [f], [("expr", ("call", "fn_zwei", [("p", a), ("q", a)]))] + dump("a", ty))
+            # the same without anything else happening between the two writes and the reads (no output in between that
+            # would make the optimiser look at the memory again): the values read are kept and printed at the end
+            mut2 = {"Z": lambda tg: [("compound", "plus", tg, ("int", 3))], "K": lambda tg: [("assign", tg, ("float", gen.bits_of_float(0.25)))],
+                    "C": lambda tg: [("assign", tg, ("char", 0x51))]}.get(ty, mut)
+            f = dict(name="fn_zwei_still", params=[("p", ty, True), ("q", ty, True)], ret="N",
+                     body=mut(("var", "p")) + [("decl", ty, "s1", ("var", "q"))] + mut2(("var", "q")) + [("decl", ty, "s2", ("var", "p"))]
+                     + mut(("var", "p")) + mut2(("var", "q")) + [("decl", ty, "s3", ("var", "p"))] + dump("s1", ty) + dump("s2", ty) + dump("s3", ty))
+            yield lab + ":ref-twice:quiet", prog([da], [f], [("expr", ("call", "fn_zwei_still", [("p", a), ("q", a)]))] + dump("a", ty))
+            f = dict(name="fn_global_still", params=[("p", ty, True)], ret="N",
+                     body=mut(a) + [("decl", ty, "s1", ("var", "p"))] + mut2(("var", "p")) + [("decl", ty, "s2", a)] + mut(a) + mut2(("var", "p"))
+                     + [("decl", ty, "s3", a)] + dump("s1", ty) + dump("s2", ty) + dump("s3", ty))
+            yield lab + ":global-ref:quiet", prog([da], [f], [("expr", ("call", "fn_global_still", [("p", a)]))] + dump("a", ty))
             f = dict(name="fn_gemischt", params=[("p", ty, True), ("q", ty, False)], ret="N",
                      body=mut(("var", "p")) + dump("q", ty) + mut(("var", "q")) + dump("p", ty))
             yield lab + ":ref-and-value", prog([da], [f], [("expr", ("call", "fn_gemischt", [("p", a), ("q", a)]))] + dump("a", ty))
